@@ -1665,6 +1665,141 @@ func genConfig(t *tdesc, r *vh.Rng, pop int, sm op) []op {
 	return ops
 }
 
+// wide history: "inserted through path X, then the table grows, then looked up".  ~60% of `width` distinct keys are
+// FIRST inserted through `path` — P, A (IntIntMap.Add of a fresh key), U (StringSet.Unipoint), the batch paths PA / TO /
+// PAW (PutAll of pairs / ToObject of bytes / PutAll of a caller's slice, 1–12 keys per call) or the cross-object
+// paths PAF / TOF (PutAll / ToObject from instance 1) — the rest through Put; the width crosses growth thresholds
+// of the table.  During and after the growth the keys that came in through the path are looked up, put / added a
+// second time (no duplicate may appear), removed.
+func genWide(t *tdesc, r *vh.Rng, has map[string]bool, path string, width int) []op {
+	var ops []op
+	seen := map[string]bool{}
+	mk := func(i int) key {
+		for {
+			var k key
+			if t.kkind == 's' {
+				k = key{s: "w" + strconv.Itoa((i*7919+r.Intn(3))%100003)}
+			} else {
+				k = key{i: int64(int32(int64(i)*int64(r.PickInt([]int{101, -203, 8344921, 1})) - int64(r.Intn(5))))}
+			}
+			if tok := t.keyTok(k); !seen[tok] {
+				seen[tok] = true
+				return k
+			}
+			i += 100003
+		}
+	}
+	var viaPath, viaPut []key
+	look := func(k key) {
+		if has["G"] && r.Chance(50) {
+			ops = append(ops, op{code: "G", k: k})
+		} else {
+			ops = append(ops, op{code: "CK", k: k})
+		}
+	}
+	probeSome := func(m int) {
+		for j := 0; j < m && len(viaPath) > 0; j++ {
+			look(viaPath[r.Intn(len(viaPath))])
+		}
+		if len(viaPut) > 0 {
+			look(viaPut[r.Intn(len(viaPut))])
+		}
+	}
+	switch path {
+	case "PAF", "TOF":
+		m := width * 6 / 10
+		if r.Chance(50) {
+			m = width - r.Intn(4)
+		}
+		for i := 0; i < m; i++ {
+			k := mk(i)
+			viaPath = append(viaPath, k)
+			ops = append(ops, op{code: "P", t: 1, k: k, v: genVal(t, r)})
+		}
+		if r.Chance(50) { // sometimes into a container that already holds entries
+			for i := 0; i < 1+r.Intn(5); i++ {
+				ops = append(ops, op{code: "P", t: 0, k: viaPath[r.Intn(len(viaPath))], v: genVal(t, r)})
+			}
+		}
+		ops = append(ops, op{code: path, t: 0, src: 1})
+		probeSome(6)
+		for i := m; i < width; i++ {
+			k := mk(i)
+			viaPut = append(viaPut, k)
+			ops = append(ops, op{code: "P", k: k, v: genVal(t, r)})
+			if i%20 == 0 {
+				probeSome(3)
+			}
+		}
+	case "PA", "TO", "PAW":
+		for i := 0; i < width; {
+			if r.Chance(60) {
+				o := op{code: path}
+				for j, m := 0, 1+r.Intn(12); j < m && i < width; j++ {
+					k := mk(i)
+					i++
+					viaPath = append(viaPath, k)
+					o.pairs = append(o.pairs, pairKV{k, genVal(t, r)})
+				}
+				ops = append(ops, o)
+			} else {
+				k := mk(i)
+				i++
+				viaPut = append(viaPut, k)
+				ops = append(ops, op{code: "P", k: k, v: genVal(t, r)})
+			}
+			if r.Chance(12) {
+				probeSome(3)
+			}
+		}
+	default:
+		for i := 0; i < width; i++ {
+			k := mk(i)
+			if r.Chance(60) {
+				viaPath = append(viaPath, k)
+				ops = append(ops, op{code: path, k: k, v: genVal(t, r)})
+			} else {
+				viaPut = append(viaPut, k)
+				ops = append(ops, op{code: "P", k: k, v: genVal(t, r)})
+			}
+			if i%20 == 19 {
+				probeSome(3)
+			}
+		}
+	}
+	ops = append(ops, op{code: "SZ"})
+	for _, k := range viaPath {
+		look(k)
+	}
+	for _, k := range viaPath {
+		switch x := r.Intn(10); {
+		case x < 2 && has["A"]:
+			ops = append(ops, op{code: "A", k: k, v: genVal(t, r)})
+		case x == 2 && has["AE"]:
+			ops = append(ops, op{code: "AE", k: k, v: genVal(t, r)})
+		case x == 2 && has["U"]:
+			ops = append(ops, op{code: "U", k: k})
+		case x < 4:
+			ops = append(ops, op{code: "P", k: k, v: genVal(t, r)})
+		case x < 6:
+			ops = append(ops, op{code: "R", k: k})
+			if r.Chance(30) {
+				look(k)
+			}
+		}
+	}
+	ops = append(ops, op{code: "SZ"})
+	for _, k := range viaPut {
+		if r.Chance(30) {
+			look(k)
+		}
+	}
+	if has["TS"] && r.Chance(30) {
+		ops = append(ops, op{code: "TS"})
+	}
+	return ops
+}
+
 func genGrowth(t *tdesc, r *vh.Rng, n int) []op {
 	var ops []op
 	mk := func(i int) key {
@@ -1924,6 +2059,36 @@ func main() {
 			}
 			cs := genCtors(r)
 			jobs = append(jobs, job{cs, genOps(t, r, avail, n, len(cs)), de})
+		}
+		{ // wide histories: every insertion path × growth thresholds of the default table, and small random capacities
+			has := map[string]bool{}
+			for _, a := range avail {
+				has[a] = true
+			}
+			for _, p := range []string{"P", "A", "U", "PA", "TO", "PAW", "PAF", "TOF"} {
+				if !has[p] {
+					continue
+				}
+				for wi, w := range [][2]int{{78, 100}, {155, 180}, {308, 330}, {20, 330}} {
+					r := rng.Fork()
+					c := ctor{def: true}
+					if wi == 3 || (env.Thorough && r.Chance(40)) {
+						c = genCtor(t, r, po.capOK)
+					}
+					cs := []ctor{c}
+					if p == "PAF" || p == "TOF" {
+						cs = append(cs, genCtor(t, r, po.capOK))
+					}
+					reps := 1
+					if env.Thorough {
+						reps = 4
+					}
+					for q := 0; q < reps; q++ {
+						jobs = append(jobs, job{cs, genWide(t, r, has, p, int(r.Range(int64(w[0]), int64(w[1])))), 16})
+						rep.Count("wide-history:" + p)
+					}
+				}
+			}
 		}
 		if t.name == "IntIntMap" { // configuration calls on populated maps (every bound of smValues, small and large populations)
 			for _, sm := range smValues {
